@@ -351,7 +351,7 @@ fn conn_level(args: &Args, total: &mut Acc) {
                         bytes.extend(rf::frame(rf::DATA, b"xy"));
                     }
                     bytes.extend(rf::frame(rf::HEADERS, sec));
-                    cases.push(Case { server, place: Where::Request, bytes, fin: true, with_head, mode, accept: vec![QPACK_DECOMPRESSION_FAILED], why });
+                    cases.push(Case { server, place: Where::Request, bytes, fin: true, with_head, after_trailers: false, mode, accept: vec![QPACK_DECOMPRESSION_FAILED], why });
                 }
             }
         }
@@ -375,7 +375,7 @@ fn conn_level(args: &Args, total: &mut Acc) {
         acc.dfs.merge(&st);
         viol.drain_into(acc, |choices| {
             json!({"kind":"conn","seam":2,"server":case.server,"place":"request","bytes":hex(&case.bytes),"fin":case.fin,"with_head":case.with_head,
-                "mode": match case.mode { Mode::Whole => "whole", Mode::PerByte => "per-byte", Mode::Explore => "explore" },
+                "mode": match case.mode { Mode::Whole => "whole", Mode::PerByte => "per-byte", Mode::Explore => "explore", Mode::Late(_) => "late" },
                 "accept": case.accept, "why": case.why, "choices": choices, "seed": seed})
         });
     });
